@@ -15,7 +15,7 @@ CALLS = [(r'^interpolate\|', 'nv_interpolate({&0}, {&1}, {2})'), (r'^clamp\|cons
          (r'^ctor\|nano::lsearch_step_t\|void \(const nano::solver_state_t &', 'nv_lstep_make({&0}, {&1}, {2})'),
          (r'^operator=\|.*lsearch_step_t', '({0} = {1})')]
 MEMBERS = [(r'^valid\|nano::solver_state_t', 'nv_state_valid'), (r'^fx\|nano::solver_state_t', 'nv_state_fx'),
-           (r'^dg\|nano::solver_state_t', 'nv_state_dg'), (r'^has_descent\|nano::solver_state_t', 'nv_state_has_descent'),
+           (r'^dg\|nano::solver_state_t', 'nv_state_dg'), (r'^has_descent\|nano::solver_state_t', 'state_has_descent'),
            (r'^has_armijo\|nano::solver_state_t', 'nv_has_armijo'), (r'^has_wolfe\|nano::solver_state_t', 'nv_has_wolfe'),
            (r'^has_strong_wolfe\|nano::solver_state_t', 'nv_has_strong_wolfe'),
            (r'^(info|warn|error)\|nano::logger_t', '@drop'),
@@ -32,17 +32,28 @@ def build(tier):
     lm = Fn('lemarechal_do_get', 'src/lsearchk/lemarechal.cpp', 'do_get', flt='lsearchk_lemarechal_t::do_get', **COMMON)
     fz = lambda: Fn('fletcher_zoom', 'src/lsearchk/fletcher.cpp', 'zoom', flt='lsearchk_fletcher_t::zoom', **COMMON)
     fd = Fn('fletcher_do_get', 'src/lsearchk/fletcher.cpp', 'do_get', flt='lsearchk_fletcher_t::do_get', **COMMON)
+    # solver_state_t::has_descent is the real inline body (include/nano/solver/state.h), called without a contract: a change of
+    # the guard or of has_descent itself (e.g. one that lets a NaN slope through) flows into lsearchk_get / fletcher_do_get
+    hd = lambda: Fn('state_has_descent', 'src/solver/state.cpp', 'has_descent', flt='solver_state_t::has_', self_struct='struct nv_state',
+                    types=TYPES, members=[(r'^dg\|nano::solver_state_t', 'nv_state_dg')])
     get = Fn('lsearchk_get', 'src/lsearchk.cpp', 'get', flt='lsearchk_t::get', **COMMON)
     targets = [
-        Target('lsearchk_get', [get, upd()], H, replace=['lsearchk_update', 'lsearchk_do_get']),
+        Target('lsearchk_get', [get, upd(), hd()], H, replace=['lsearchk_update', 'lsearchk_do_get']),
         Target('lsearchk_update', [upd()], H),
+        Target('state_has_descent', [hd()], H),
         Target('backtrack_do_get', [bt, upd()], H, replace=['lsearchk_update']),
         Target('lemarechal_do_get', [lm, upd()], H, replace=['lsearchk_update']),
         Target('fletcher_zoom', [fz(), upd()], H, replace=['lsearchk_update']),
-        Target('fletcher_do_get', [fd, fz(), upd()], H, replace=['lsearchk_update', 'fletcher_zoom']),
+        Target('fletcher_do_get', [fd, fz(), upd(), hd()], H, replace=['lsearchk_update', 'fletcher_zoom']),
     ]
+    import pred_smt
+    import step_smt
+    vcs, fns = pred_smt.build()
+    svcs, sfns = step_smt.build()
+    vcs += svcs
+    fns += sfns
     return {
-        'targets': targets, 'vcs': [],
+        'targets': targets, 'vcs': vcs, 'functions': fns,
         'decided': ['backtrack / LeMarechal / Fletcher(+zoom): success => advertised predicates were evaluated true on the current trial point with the returned step, and the state is the valid evaluation at x0+t*d; loops terminate (variant max_iterations - i)'],
         'not_decided': ['success on convex quadratics (needs the numerics of interpolation)', 'CG_DESCENT / More-Thuente bodies'],
         'assumptions': ['solver_state_t::update(x) makes the state the single evaluation at x (assumed contract)',
